@@ -330,7 +330,7 @@ func genC02(r *rng, tier string, st *stats) []taggedScen {
 
 // ---------------------------------------------------------------- random nested flows
 
-var flowActs = []int{1, 5, 6, 55}
+var flowActs = []int{1, 2, 5, 6, 55} // 2 is spelled "error", 6 "cancel" (actName)
 
 // fullKinds: node kinds whose three phases are user-visible (the lifecycle monitor applies)
 func fullKind(r *rng, N int) NodeDef {
